@@ -80,28 +80,57 @@ def seqBytes : Input.Seq → List Nat
 
 def q (label : List Nat) (params : List Int) : EOp := .csi label (params.map fun n => (n, []))
 
-/-- `sendQueries()`, from the first query to the last, as the emulator's parser delivers them
-    (`CSI m` = the writer's SGR reset at the flush before the cursor-position request). -/
-def startupQueries : List EOp :=
-  [ .dcs,                                          -- DCS $ q SP q ST   (user cursor style)
-    q [63, 36, 112] [2026], q [63, 36, 112] [2027], q [63, 36, 112] [2031],
-    q [63, 104] [2048],                            -- blind enable of in-band resize
-    q [62, 113] [0],                               -- XTVERSION
-    q [63, 117] [],                                -- kitty keyboard query
-    .apc,                                          -- kitty graphics query
-    q [63, 83] [2, 1, 0],                          -- XTSMGRAPHICS sixel geometry
-    q [116] [14], q [116] [18],                    -- text area size in pixels / characters
-    q [72] [],                                     -- CUP home
-    .osc [54, 54, 59, 119, 61, 49, 59, 32] {},                  -- OSC 66 ; w=1 ; SP  (explicit-width probe)
-    q [109] [],
-    q [110] [6],                                   -- cursor position report
-    .dcs,                                          -- XTGETTCAP RGB
+/-- `sendQueries()`, write by write, from the first query to the SGR reset of the final flush, as the
+    emulator's parser delivers them (`CSI m` = the writer's SGR reset at the end of every flush; one
+    write can be several sequences). -/
+def startupGroups : List (List EOp) :=
+  [ [.dcs],                                        -- DCS $ q SP q ST   (user cursor style)
+    [q [63, 36, 112] [2026]], [q [63, 36, 112] [2027]], [q [63, 36, 112] [2031]],
+    [q [63, 104] [2048]],                          -- blind enable of in-band resize
+    [q [62, 113] [0]],                             -- XTVERSION
+    [q [63, 117] []],                              -- kitty keyboard query
+    [.apc],                                        -- kitty graphics query
+    [q [63, 83] [2, 1, 0]],                        -- XTSMGRAPHICS sixel geometry
+    [q [116] [14], q [116] [18]],                  -- text area size in pixels / characters
+    [q [72] []],                                   -- CUP home
+    [.osc [54, 54, 59, 119, 61, 49, 59, 32] {}],   -- OSC 66 ; w=1 ; SP  (explicit-width probe)
+    [q [109] []],                                  -- flush
+    [q [110] [6]],                                 -- cursor position report
+    [.dcs],                                        -- XTGETTCAP RGB
     -- OSC 4;1;?  OSC 10;?  OSC 11;?  OSC 176;?
-    .osc [52, 59, 49, 59, 63] {}, .osc [49, 48, 59, 63] { b64ok := true }, .osc osc11Query { b64ok := true },
-    .osc [49, 55, 54, 59, 63] { b64ok := true },
-    .dcs,                                          -- XTGETTCAP Smulx
-    q [61, 99] [],                                 -- DA3
-    q [99] [] ]                                    -- DA1
+    [.osc [52, 59, 49, 59, 63] {}], [.osc [49, 48, 59, 63] { b64ok := true }], [.osc osc11Query { b64ok := true }],
+    [.osc [49, 55, 54, 59, 63] { b64ok := true }],
+    [.dcs],                                        -- XTGETTCAP Smulx
+    [q [61, 99] []],                               -- DA3
+    [q [99] []],                                   -- DA1
+    [q [109] []] ]                                 -- flush
+
+def startupQueries : List EOp := startupGroups.flatten
+
+/-! ### the same on the wire (for the `facts_*` theorems over `Gen.TermReplies`) -/
+
+/-- Instantiate the `%d` / `%s` of a printf format (bytes) with rendered arguments. -/
+def instFmt : List Nat → List (List Nat) → List Nat
+  | 37 :: 100 :: rest, a :: as => a ++ instFmt rest as
+  | 37 :: 115 :: rest, a :: as => a ++ instFmt rest as
+  | b :: rest, as => b :: instFmt rest as
+  | [], _ => []
+
+/-- A CSI sequence as its bytes: `ESC [`, private markers, parameters, intermediates, final. -/
+def csiWire (label : List Nat) (pm : List Param) : List Nat :=
+  let pre := label.filter (fun c => decide (60 ≤ c ∧ c ≤ 63))
+  let post := label.filter (fun c => !decide (60 ≤ c ∧ c ≤ 63))
+  [27, 91] ++ pre ++ ([59] : List Nat).intercalate (pm.map fun p => paramBytes (p.1 :: p.2)) ++ post
+
+/-- Do the bytes of one write parse to these sequences? DCS / APC carry no payload in the emulator
+    model (only the introducer is compared); an OSC may end with BEL or ST. -/
+def wireMatches (bytes : List Nat) : List EOp → Bool
+  | [.dcs] => bytes.take 2 == [27, 80]
+  | [.apc] => bytes.take 2 == [27, 95]
+  | [.osc payload _] => bytes == [27, 93] ++ payload ++ [7] || bytes == [27, 93] ++ payload ++ [27, 92]
+  | ops => bytes == ops.flatMap fun
+      | .csi l pm => csiWire l pm
+      | _ => [0]
 
 /-- The emulator model over a list of sequences, with the replies it writes, in order. -/
 def runQ (hostBg : Option (Nat × Nat × Nat)) : Emu → List EOp → M (Emu × List Input.Seq)
